@@ -24,6 +24,8 @@ func checkC18(c *Ctx) {
 	c18FailedCalls(c, prog)
 	// aliasing of receiver and arguments (same rules as C03-2 and C16-2, run here because they are this property's subject too)
 	c18Aliasing(c, prog)
+	// ... and of the scalar folds, whose receiver may be one of the list entries (rule C02-2c)
+	c02Folds(c, prog, scalarSpec())
 	// key objects: creation sites, fresh copies in, fresh copies out, no method writes its key
 	c10Constructors(c, prog)
 	c10WhoWrites(c, prog, "C18-5", models.SececPkg, map[string][]string{
